@@ -122,21 +122,8 @@ func H_C02_WiringModules() {
 // H_C09_WiringStores: every custom keeper is constructed over its own module's store key (the
 // modules use overlapping key layouts, so a shared store would alias registrations).
 func H_C09_WiringStores() {
-	if !rtw.Static() {
-		return
-	}
-	tr := rtw.StaticTrace("github.com/unification-com/mainchain/app.NewApp")
 	for _, m := range []string{"enterprise", "wrkchain", "beacon", "stream"} {
-		call := indexOf(tr, func(s string) bool { return contains(s, "x/"+m+"/keeper.NewKeeper") })
-		rt.Assert("C09+C18.keeper-constructed", call >= 0)
-		// the last constant map lookup before the constructor call is keys[<module>.StoreKey]
-		last := ""
-		for i := 0; i < call; i++ {
-			if len(tr[i]) > 7 && tr[i][:7] == "lookup:" {
-				last = tr[i][7:]
-			}
-		}
-		rt.Assert("C09+C18.keeper-uses-own-store-key", last == m)
+		rt.Assert("C09+C18.keeper-uses-own-store-key", rtw.KeeperStoreKey(m) == m)
 	}
 	rt.Reach("end")
 }
